@@ -387,6 +387,23 @@ func getShallowCommits(st storage.Storer, heads []plumbing.Hash, depth int, upd 
 		}
 	}
 
+	// A commit that reached the depth limit along one want but lies within
+	// the limit along another is not a boundary: git's send_shallow skips
+	// commits that also carry the NOT_SHALLOW mark.
+	if len(upd.Shallows) > 0 && len(upd.Unshallows) > 0 {
+		within := make(map[plumbing.Hash]struct{}, len(upd.Unshallows))
+		for _, h := range upd.Unshallows {
+			within[h] = struct{}{}
+		}
+		shallows := upd.Shallows[:0]
+		for _, h := range upd.Shallows {
+			if _, ok := within[h]; !ok {
+				shallows = append(shallows, h)
+			}
+		}
+		upd.Shallows = shallows
+	}
+
 	return nil
 }
 
